@@ -331,8 +331,8 @@ func TestCheck(t *testing.T) {
 		})
 	})
 	// -- lexical layer: every separator symbol at every token boundary (lexlayer.go) -----
-	llTasks, llProgs, llSyms, llCore, llPair := lexLayerTasks(e, g, r.Thorough())
-	phase1 = append(phase1, llTasks...)
+	llTasks, llPairTasks, llProgs, llSyms, llCore, llPair := lexLayerTasks(e, g, r.Thorough())
+	phase2 = append(phase2, llPairTasks...)
 
 	// -- k = 2 inside one block: every pair of slots, every pair of spellings, both orders --
 	inBlock := func(sel func(*slot) []spelling) {
@@ -382,10 +382,18 @@ func TestCheck(t *testing.T) {
 
 	t0 := time.Now()
 	e.run(phase1)
+	// the lexical layer may use at most 60 % of the wall budget, so that a loaded
+	// machine cuts it short (non-exhaustive) and not the k = 2 families after it
+	tl := time.Now()
+	if limit := t0.Add(deadline.Sub(t0) * 6 / 10); limit.Before(deadline) {
+		e.deadline = limit
+	}
+	e.run(llTasks)
+	e.deadline = deadline
 	e.freeze()
 	t1 := time.Now()
 	e.run(phase2)
-	r.Set("phase_wall_s", []float64{t1.Sub(t0).Seconds(), time.Since(t1).Seconds()})
+	r.Set("phase_wall_s", []float64{tl.Sub(t0).Seconds(), t1.Sub(tl).Seconds(), time.Since(t1).Seconds()})
 	if e.timedOut {
 		r.NotExhaustive("wall budget reached before every task was dispatched")
 	}
@@ -428,11 +436,17 @@ func TestCheck(t *testing.T) {
 		"(transcribed from parser.go: every directive of every block kind) with every spelling of each chosen slot, in both orders; "+
 		"k = 1 everywhere (core and extra spellings), k = 2 inside one block (all core spellings) and, thorough only, k = 2 across blocks (<= 6 spellings per slot); "+
 		"plus, at every value position, every string of <= "+fmt.Sprint(runner.Pick(r, 2, 3))+" symbols over {a, blank, \", \\, #, {, }, $, tab, \\n escape, ä} (and NBSP, \\t, \\r) quoted and unquoted; "+
-		"plus every route layout of <= 3 groups / <= 3 routes over bare|inbound|outbound|internal x shorthand|wrapper x bare|quoted path; plus whole-file spellings (CRLF, CR, BOM, indentation, one line) of the k = 1 programs; "+
+		"plus every route layout of <= "+fmt.Sprint(layoutMax)+" groups / <= "+fmt.Sprint(layoutMax)+" routes over bare|inbound|outbound|internal x shorthand|wrapper x bare|quoted path; plus whole-file spellings (CRLF, CR, BOM, indentation, one line) of the k = 1 programs; "+
+		"plus the lexical layer: base and base + one slot (default, quoted, multi-value, repeated, wrapper spellings; both orders) split into tokens, and at every token boundary (file header, between tokens, end of file) the separator replaced by every symbol of the separator alphabet "+
+		"(white space and line endings LF/CRLF/CR/mixed/none; tab, FF, VT, NUL, NBSP, NEL, U+2028/9, U+3000, ZWSP, BOM, Ctrl-Z, ESC, DEL, invalid UTF-8, backslash glued left/right/both/alone; comments = lead {attached, blank, own line} x body {empty, prose, #, {, }, quotes, % verbs, placeholder, route/block-looking text, each of the characters above and bare CR at the start / end / middle before prose, a route, a comment, a brace} x terminator {LF, CRLF, CR, none}; header forms with BOM and several comments), "+
+		"quick: reduced alphabet at the header, the end and the boundaries a program does not share with the base, full alphabet at every boundary of the base and of the first program starting with each top-level block kind, these also as CRLF and CR files and with two boundaries varied at once (header + one other, reduced alphabet); "+
+		"thorough: full alphabet at every boundary of every program, CRLF/CR files for every program, every pair of boundaries; "+
 		"texts the parser rejects are skipped and counted. A case is distinct/non-trivial when it parsed: key = (block kind, directive, spelling) per chosen slot, or the layout shape.")
 	r.Assume("environment is fixed by the harness: C19_E<n> env vars and c19f_e<n> files (relative to a private cwd) hold the placeholder values, C19_UNSET is unset; nothing else of the process environment is referenced by generated texts")
 	r.Assume("ValidationResult is compared as OK + multiset of Errors + multiset of Warnings (exact text, no positions are embedded by Compile): compileVars ranges over a Go map, so the order of several vars errors is undefined even for a single AST")
 	r.Assume("Compiled is compared with reflect.DeepEqual; generated numeric values never produce NaN (NaN != NaN would be a false difference)")
+	r.Assume("lexical layer: the token split is done by the harness on its own rendered text (blank/LF separated, quotes and placeholders kept whole) and is only a generator; whether a symbol separates tokens, joins them, starts a comment or is rejected is left to the parser, and every accepted text is judged by the same round-trip oracle. Comments longer than ~40 bytes, more than two varied boundaries per file, and k = 2 programs under the lexical layer are not enumerated")
+	r.Assume("a text that does not parse cannot be formatted: checked as 'config.Parse never returns an error together with an AST' (every caller formats only what Parse returned without error)")
 	r.Assume("bounded: at most two optional slots vary per program (plus their required siblings/referenced blocks); interactions of three or more directives are not enumerated; comments are semantic no-ops and only their acceptance/stability is checked")
 	r.Assume("quantifier is 'every text that parses': ASTs that only management/MCP mutations can build (e.g. Quoted=false with a value that needs quotes) are not generated; Parse/Format/Compile are called directly, the same entry points `hookaido config fmt` and mutateManagedEndpointConfig use")
 	r.Assume("the AST comparison (astDiff) only labels a violation (drops-blank / drops / alters); the verdict is Parse/Compile/Format behaviour alone")
